@@ -115,7 +115,22 @@ def units(tier, seed):
     for lo in range(0, 0x10000, 0x1000):
         us.append({"head": f"U+{lo:04X}", "sweep": [lo, lo + 0x1000], "L": L})
     us.append({"head": "astral", "sweep": [0x1F600, 0x1F650], "L": L})
+    us.append({"head": "tokens", "tokens": True, "L": L})
     return us
+
+
+def token_strings():
+    """Whole tokens of mc/sweeps.py (names that XML / RDF tooling reserves, percent-escapes, ...) as prefix and as reference,
+    and pairs of near-identical prefixes validated one right after the other (the answer is a function of the string alone)."""
+    from .. import sweeps
+
+    for t in sweeps.TOKENS:
+        for tpl in ("{t}", "{t}:1", "g:{t}", "{t}:{t}", "{t}g:1", "g{t}:x", "_:{t}{t}", "{t}:/1", "{t}://x"):
+            yield tpl.replace("{t}", t)
+    for a, b in sweeps.TWINS:
+        for tpl in ("{}egg:1", "stra{}e:1", "{}:1", "g{}:1", "{}", "g:{}"):
+            for x in (a, b, a, b, b, a):
+                yield tpl.format(x)
 
 
 TEMPLATES = ["{c}", "g{c}", "{c}g", "g{c}:1", "g:{c}", "g:1{c}", "{c}:1", "g{c}g:x", "_{c}:{c}", "{c}{c}"]
@@ -141,7 +156,10 @@ def run_unit(unit, ctx):
     tr = str.maketrans(rot) if rot else None
     n = acc_p = acc_c = 0
     syms = SYMBOLS + BOUNDARY if (unit.get("full") or L <= 6) else SYMBOLS
-    if unit.get("sweep"):
+    if unit.get("tokens"):
+        cands = token_strings()
+        tr = None
+    elif unit.get("sweep"):
         cands = sweep_strings(*unit["sweep"])
         tr = None
     elif unit.get("only_short"):
@@ -167,7 +185,7 @@ def run_unit(unit, ctx):
         if bool(gp) != rp or bool(gc) != rc:
             for sig, msg in check_string(s)[:2]:
                 ctx.violation("C20/" + sig, msg, {"s": s})
-    if unit.get("sweep"):
+    if unit.get("sweep") or unit.get("tokens"):
         ctx.count("sweep_cases", n)
     ctx.count("evaluations", 2 * n)
     ctx.count("transitions", n)
